@@ -37,7 +37,7 @@ def gates(c, tier):
     for k in ("outcome:accepted", "outcome:FilterSyntaxError"):
         if tot and c.get(k, 0) < 0.1 * tot:
             out.append(f"{k} below 10% of cases ({c.get(k, 0)}/{tot})")
-    for k in ("part:random", "part:edits", "part:unbalanced", "part:nest", "part:surrogates", "accepted-tree-walked", "accepted-reparsed", "offsets-checked"):
+    for k in ("part:random", "part:edits", "part:unbalanced", "part:extra-data", "part:nest", "part:surrogates", "accepted-tree-walked", "accepted-reparsed", "offsets-checked"):
         if c.get(k, 0) == 0:
             out.append(f"never ran {k}")
     return out
@@ -187,6 +187,14 @@ def run_shard(ctx: Ctx, acc: Acc):
         for k in idx:
             do("unbalanced", s[:k] + s[k + 1 :])
             do("unbalanced", s[:k] + s[k] * 2 + s[k + 1 :])
+    # text after a complete filter, with multi-byte characters at every alignment (error reporting must stay total)
+    for j in range(max(1, n // 4000)):
+        r = ctx.rng("extra", j)
+        head = gf.Render(r, decoration=False).sentence(gf.g_text_filter(r, r.choice([0, 1]), fan=2, hostile=False))
+        for k in range(0, 26):
+            for mb in ("é", "中", "\U0001f600", "éé中"):
+                do("extra-data", head + "x" * k + mb + r.choice(["", "y", ")(", "(cn=b)"]) * r.choice([1, 3]))
+                do("extra-data", head + " " * (k % 3) + "(" + "a" * k + mb + "=b)")
     depths = [10, 100, 400, 490, 495, 497, 500, 600, 990, 1500, 5000, 100000]
     for di, d in enumerate(depths):
         if di % ctx.nshards != ctx.shard:
